@@ -185,7 +185,7 @@ def _limit_memory():
     """preexec: cap a worker's address space so that a runaway allocation dies quickly instead of exhausting the machine."""
     try:
         import resource
-        lim = int(os.environ.get("VERIF_WORKER_AS_GB", "8")) << 30
+        lim = int(os.environ.get("VERIF_WORKER_AS_GB", "12")) << 30
         resource.setrlimit(resource.RLIMIT_AS, (lim, lim))
     except Exception:
         pass
@@ -696,6 +696,12 @@ def conclude(prop, tier, level, t0, outcome, findings, runner, params, coverage,
             print("INFRA: %s" % m)
         status = 2
     unconf = [c for c in outcome.crashes if not c.get("confirmed")]
+    # a long-lived worker that reaches its address-space cap (reflect-built types are never freed) is restarted after the case it
+    # was executing; when that case passes alone the death was the harness's own memory, neither a finding nor a failed run
+    restarts = [c for c in unconf if c.get("kind") == "fatal:out-of-memory"]
+    unconf = [c for c in unconf if c.get("kind") != "fatal:out-of-memory"]
+    if restarts:
+        print("note: %d worker restart(s) at the per-process memory cap (the interrupted case passes when run alone)" % len(restarts))
     if unconf:
         print("INFRA: %d worker death(s) not reproduced when re-run alone (first: %s)" % (len(unconf), json.dumps(unconf[0])[:400]))
         status = 2
